@@ -19,6 +19,8 @@ func init() {
 }
 
 func c08(c *Ctx) {
+	c.primaryOnlyHandlers("primary-only")
+	c.NoDiscardedErrors("errors/none-dropped", []string{"consul"}, discardLease, 1)
 	p := c.P
 	mp := "litefs.(*Store).monitorLeaseAsPrimary"
 	ml := "litefs.(*Store).monitorLease"
@@ -393,6 +395,33 @@ func c08(c *Ctx) {
 	cs := "consul.(*Leaser).SetClusterID"
 	c.Guarded("consul/cluster-id-once", cs, p.CallsRe(`.*api\.\(\*KV\)\.Put`), gs(GP("(\"\" == consul.(*Leaser).ClusterID(p0, p1)#0)", true)), 1, "the cluster id is written only when none exists", "the cluster ID can only be set once")
 	c.ErrHandled("consul/cluster-id-read-error", cs, p.PlainCalls("consul.(*Leaser).ClusterID"), p.CallsRe(`.*api\.\(\*KV\)\.Put`), 1, "a failed read never overwrites", "")
+	{
+		// the blocking send on handoffCh is the only proof that the target's stream handler took the lease id
+		fn := c.F("litefs.newChangeSetSubscriber")
+		d := "ChangeSetSubscriber.handoffCh is created unbuffered"
+		got := ""
+		if fn != nil {
+			for _, b := range fn.Blocks {
+				for _, in := range b.Instrs {
+					st, ok := in.(*ssa.Store)
+					if !ok {
+						continue
+					}
+					fa, ok := st.Addr.(*ssa.FieldAddr)
+					if !ok || fieldName(fa.X.Type(), fa.Field) != "handoffCh" {
+						continue
+					}
+					if mc, ok := st.Val.(*ssa.MakeChan); ok {
+						got = "make(chan, " + p.Render(mc.Size) + ")"
+					} else {
+						got = p.Render(st.Val)
+					}
+				}
+			}
+		}
+		c.Expect("handoff/channel-unbuffered", got, pat("make(chan, 0)"), d, "with a buffer the send succeeds although nobody receives: the primary gives up the lease to a replica that never got the id, and neither destroys nor hands off the lease")
+		c.OnlyIn("handoff/channel-writers", p.Writes("litefs.ChangeSetSubscriber.handoffCh"), []string{pat("litefs.newChangeSetSubscriber")}, 1, "the channel is only ever set at construction", "")
+	}
 	cx := "consul.(*Leaser).AcquireExisting"
 	for _, f := range []struct{ fn, short string }{{ca, "acquire"}, {cx, "existing"}} {
 		c.Guarded("consul/"+f.short+"/lease-only-when-locked", f.fn, p.SuccessReturn, gs(G(`.*api\.\(\*KV\)\.Acquire\(.*\)#0`, true)), 1, f.short+": a lease is returned only when Consul answered that the key is locked by this session", "a node that treats 'not acquired' as success becomes primary while Consul names another")
